@@ -2,6 +2,7 @@
 """Regenerates the `fixed` list of known_findings.json from /repo's "fix:" commits."""
 import json, subprocess
 PROP = {
+"a sub-subclass of a discriminated parent":"C13",
 "serialization schema promised dependentRequired":"C07",
 "coerce=True converted booleans to float":"C14",
 "validators passed per call or in metadata":"C10",
